@@ -139,7 +139,7 @@ func fillScope(i int, s pcommon.InstrumentationScope) (url string) {
 
 // ---- attribute archetypes shared by all signals ------------------------------
 
-const NumAttrs = 11
+const NumAttrs = 12
 
 func fillAttrs(i int, m pcommon.Map) {
 	switch i {
@@ -190,6 +190,10 @@ func fillAttrs(i int, m pcommon.Map) {
 			cur = cur.PutEmptyMap("n")
 		}
 		cur.PutStr("leaf", "x")
+	case 11: // large values (in domain: any valid UTF-8 length)
+		m.PutStr("big", strings.Repeat("é", 40000))
+		m.PutEmptyBytes("bigb").FromRaw(make([]byte, 70000))
+		m.PutEmptySlice("bigl").AppendEmpty().SetStr(strings.Repeat("x", 70000))
 	case 10: // nothing survives: empty key, unset value
 		m.PutStr("", "empty key is dropped")
 		m.PutEmpty("unset")
@@ -226,7 +230,7 @@ func sid(b byte) pcommon.SpanID {
 
 // ---- spans -------------------------------------------------------------------
 
-const NumSpan = 28
+const NumSpan = 29
 
 func fillSpan(i int, sp ptrace.Span) {
 	if i >= WildBase {
@@ -348,6 +352,13 @@ func fillSpan(i int, sp ptrace.Span) {
 			fillAttrs(7, e.Attributes())
 		}
 		fillAttrs(7, sp.Attributes())
+	case 28: // large strings everywhere
+		sp.SetName(strings.Repeat("n", 70000))
+		sp.Status().SetMessage(strings.Repeat("m", 70000))
+		fillAttrs(11, sp.Attributes())
+		e := sp.Events().AppendEmpty()
+		e.SetName(strings.Repeat("e", 70000))
+		fillAttrs(11, e.Attributes())
 	case 27: // attribute maps (span, event, link) whose entries are all dropped by the encoder
 		fillAttrs(10, sp.Attributes())
 		fillAttrs(10, sp.Events().AppendEmpty().Attributes())
@@ -460,7 +471,7 @@ func rampTraces(td ptrace.Traces, r *Ramp) {
 
 // ---- logs ----------------------------------------------------------------------
 
-const NumLog = 25
+const NumLog = 26
 
 func fillLog(i int, lr plog.LogRecord) {
 	if i >= WildBase {
@@ -535,6 +546,10 @@ func fillLog(i int, lr plog.LogRecord) {
 		lr.Body().SetStr("1")
 	case 22: // single attribute, equal across records
 		fillAttrs(7, lr.Attributes())
+	case 25: // large body and attributes
+		lr.Body().SetStr(strings.Repeat("b", 70000))
+		lr.SetSeverityText(strings.Repeat("s", 70000))
+		fillAttrs(11, lr.Attributes())
 	case 24:
 		fillAttrs(10, lr.Attributes())
 	case 23: // negative numbers
@@ -611,7 +626,7 @@ func (l Letter) BuildLogs() plog.Logs {
 
 // ---- metrics ---------------------------------------------------------------------
 
-const NumMetric = 46
+const NumMetric = 47
 
 func exemplar(e pmetric.Exemplar, kind int) {
 	switch kind {
@@ -850,6 +865,16 @@ func fillMetric(i int, m pmetric.Metric) {
 			dp.SetIntValue(int64(k))
 			fillAttrs(7, dp.Attributes())
 		}
+	case 46: // large descriptor strings and attributes, many buckets
+		m.SetDescription(strings.Repeat("d", 70000))
+		m.SetUnit(strings.Repeat("u", 70000))
+		dp := m.SetEmptyHistogram().DataPoints().AppendEmpty()
+		dp.SetCount(1)
+		bc := make([]uint64, 2000)
+		bc[1999] = 1
+		dp.BucketCounts().FromRaw(bc)
+		dp.ExplicitBounds().FromRaw(make([]float64, 1999))
+		fillAttrs(11, dp.Attributes())
 	case 45: // point and exemplar attribute maps whose entries are all dropped
 		dp := m.SetEmptyGauge().DataPoints().AppendEmpty()
 		dp.SetIntValue(1)
